@@ -398,6 +398,11 @@ class XMLSchemaConverter(NamespaceMapper):
 
             has_single_group = xsd_group.is_single()
             for name, value, xsd_child in self.map_content(data.content):
+                if xsd_child is None and self.cdata_prefix is not None and \
+                        name.startswith(self.cdata_prefix) and \
+                        name[len(self.cdata_prefix):].isdigit():
+                    result_dict[name] = value  # character data is never collected in a list
+                    continue
                 try:
                     result = result_dict[name]
                 except KeyError:
